@@ -7,6 +7,8 @@ import (
 	"io"
 	"net"
 	"net/netip"
+	"os"
+	"sync"
 	"time"
 
 	"github.com/pion/stun/v3"
@@ -33,7 +35,15 @@ type verifMuxSocket struct {
 	deadlines []time.Time
 	failSetDL bool
 	writeMode int
+	// blockTag != 0: a WriteTo whose first payload byte equals blockTag blocks
+	// until a non-zero write deadline is armed, then fails like a timed-out write
+	blockTag    byte
+	deadlineSet bool
+	armed       chan struct{}
+	mu       sync.Mutex
 }
+
+
 
 func (s *verifMuxSocket) ReadFrom(p []byte) (int, net.Addr, error) {
 	d, ok := <-s.in
@@ -47,6 +57,22 @@ func (s *verifMuxSocket) WriteTo(p []byte, addr net.Addr) (int, error) {
 	if s.writeMode == 1 {
 		return 0, errVerifWrite
 	}
+	if s.blockTag != 0 && len(p) > 0 && p[0] == s.blockTag {
+		// a write that cannot complete: it returns when (or as soon as) the
+		// write deadline lies in the past, as a real socket does
+		s.mu.Lock()
+		expired := s.deadlineSet
+		ch := s.armed
+		if ch == nil {
+			ch = make(chan struct{})
+			s.armed = ch
+		}
+		s.mu.Unlock()
+		if !expired {
+			<-ch
+		}
+		return 0, os.ErrDeadlineExceeded
+	}
 	cp := append([]byte{}, p...)
 	s.sent = append(s.sent, verifDatagram{cp, addr})
 	return len(p), nil
@@ -59,7 +85,17 @@ func (s *verifMuxSocket) SetWriteDeadline(t time.Time) error {
 	if s.failSetDL {
 		return errVerifWrite
 	}
+	s.mu.Lock()
 	s.deadlines = append(s.deadlines, t)
+	s.deadlineSet = !t.IsZero()
+	if s.deadlineSet {
+		if s.armed == nil {
+			s.armed = make(chan struct{})
+		}
+		close(s.armed) // every blocked write times out
+		s.armed = make(chan struct{})
+	}
+	s.mu.Unlock()
 	return nil
 }
 
